@@ -94,6 +94,10 @@ func init() {
 			panic(abortf("sym.Float64Bits outside domain B"))
 		}
 		t := s.newInput(argStr(a[0]), BV(64))
+		if s.run.floatInputs == nil {
+			s.run.floatInputs = map[string]bool{}
+		}
+		s.run.floatInputs[t.Name] = true
 		if s.noNaNInputs {
 			c := s.ctx
 			s.assumeRaw(c.BVUle(c.BVAnd(t, c.BVConst(absMask, 64)), c.BVConst(expMask, 64)))
@@ -529,6 +533,10 @@ func (s *State) reach(v Value, seen map[*Object]bool, deep bool) {
 		}
 	case SliceV:
 		if x.obj != nil && !seen[x.obj] {
+			// a zero-capacity backing array is no storage: nothing can be written through it
+			if av, ok := s.resolve(x.obj).val.(*ArrayV); ok && len(av.e) == 0 {
+				return
+			}
 			seen[x.obj] = true
 			s.reach(s.resolve(x.obj).val, seen, deep)
 		}
